@@ -113,7 +113,7 @@ def run_prefix(prefix: dict | None) -> None:
 
 
 def serve() -> None:
-    """Evaluate C11 cases sent as JSON lines on stdin (used for pair minimisation)."""
+    """Evaluate cases sent as JSON lines on stdin (used for pair minimisation)."""
     import c11sim
 
     for ln in sys.stdin:
@@ -121,7 +121,14 @@ def serve() -> None:
         if not ln:
             continue
         try:
-            res = c11sim.replay(json.loads(ln))
+            case = json.loads(ln)
+            if case.get("prop") in ("C14", "C02", "C04"):
+                from graphsim import run_case
+
+                cr = run_case(case, explicit=True)
+                res = {"xv": cr.result_values, "xd": cr.result_digests, "viol": [v["sig"] for v in cr.violations]}
+            else:
+                res = c11sim.replay(case)
         except Exception as e:  # noqa: BLE001
             res = {"error": f"{type(e).__name__}: {e}"}
         sys.stdout.write(json.dumps(res) + "\n")
